@@ -147,3 +147,11 @@ PROPS["C16"] = {
          "timeout": {"quick": 600, "thorough": 2400}},
     ],
 }
+C08_INSTR = ["store_message.go", "group_context.go|sync|handleGroupMetadataEvent,fillMessageKeysHolderUsingPreviousData,sendSecretsToExistingMembers,ActivateGroupContext",
+             "internal/queue/simple.go", "internal/queue/priority.go"]
+PROPS["C08"] = {
+    "level": "exploration",
+    "units": [
+        {"name": "c08-pipeline", "pkg": ROOT, "run": "TestVerifC08", "instr": C08_INSTR, "timeout": {"quick": 900, "thorough": 3400}},
+    ],
+}
